@@ -500,6 +500,10 @@ class Interp:
     def ev_index(self, n, env):
         b = self.ev(n["base"], env)
         i = self.ev(n["idx"], env)
+        if isinstance(b, VecV) and b.base is None and isinstance(i, Lit) and isinstance(i.v, int):
+            if 0 <= i.v < len(b.items):
+                return b.items[i.v]
+            raise _Panic("index out of bounds: %s" % T.render(n))
         return Sym("%s[%s]" % (show(b), show(i)), n.get("ty"))
 
     def ev_struct(self, n, env):
@@ -576,6 +580,14 @@ class Interp:
                 base.items[int(place["name"])] = v
                 return
             self.effects.append(("assign_field", "%s.%s" % (show(base), place["name"]), v, place))
+            return
+        if k == "index":
+            base = self.ev(place["base"], env)
+            i = self.ev(place["idx"], env)
+            if isinstance(base, VecV) and base.base is None and isinstance(i, Lit) and isinstance(i.v, int) and 0 <= i.v < len(base.items):
+                base.items[i.v] = v
+                return
+            self.effects.append(("assign_index", "%s[%s]" % (show(base), show(i)), v, place))
             return
         raise Cannot("assignment to %s" % T.render(place))
 
@@ -860,6 +872,35 @@ def _set_contains(I, a, n, env):
     return Sym("contains(%s, %s)" % (show(a[0]), show(a[1])), "bool")
 
 
+def _range_contains(I, a, n, env):
+    r, x = a[0], a[1]
+    if isinstance(r, Struct) and set(r.fields) == {"start", "end"}:
+        lo = I.compare("<=", r.fields["start"], x, "usize")
+        if not I.truth(lo):
+            return Lit(False)
+        return I.compare("<", x, r.fields["end"], "usize")
+    return Sym("%s.contains(%s)" % (show(r), show(x)), "bool")
+
+
+def _ord_min(I, a, n, env):
+    if isinstance(a[0], Lit) and isinstance(a[1], Lit):
+        return Lit(min(a[0].v, a[1].v))
+    return a[0] if I.truth(I.compare("<=", a[0], a[1], "usize")) else a[1]
+
+
+def _ord_max(I, a, n, env):
+    if isinstance(a[0], Lit) and isinstance(a[1], Lit):
+        return Lit(max(a[0].v, a[1].v))
+    return a[1] if I.truth(I.compare("<=", a[0], a[1], "usize")) else a[0]
+
+
+def _clone(I, a, n, env):
+    v = a[0]
+    if isinstance(v, Struct):
+        return Struct(v.name, list(v.fields.items()))
+    return v
+
+
 def _vec_new(I, a, n, env):
     return VecV([])
 
@@ -933,6 +974,12 @@ MODELS = {
     "std::collections::HashMap::get": _map_get,
     "std::collections::HashSet::contains": _set_contains,
     "std::vec::Vec::new": _vec_new,
+    "std::ops::Range::contains": _range_contains,
+    "core::ops::Range::contains": _range_contains,
+    "std::cmp::Ord::min": _ord_min,
+    "std::cmp::Ord::max": _ord_max,
+    "std::cmp::min": _ord_min,
+    "std::cmp::max": _ord_max,
     "std::string::String::new": _string_new,
     "std::string::String::push": _str_push,
     "std::string::String::push_str": _str_push,
@@ -960,7 +1007,7 @@ SUFFIX_MODELS = [
     ("::Iterator::any", _iter_any),
     ("::Iterator::all", _iter_all),
     ("::Extend::extend", _vec_extend),
-    ("::Clone::clone", _transparent),
+    ("::Clone::clone", _clone),
     ("::Deref::deref", _transparent),
     ("::AsRef::as_ref", _transparent),
     ("::Borrow::borrow", _transparent),
